@@ -30,6 +30,7 @@ import (
 	"go/types"
 	"os"
 	"path/filepath"
+	"regexp"
 	"sort"
 	"strings"
 )
@@ -52,7 +53,9 @@ var srcUnits = []srcUnit{
 	{dir: ".", path: modPath, lean: "Lib", pre: "lib",
 		funcs: []string{"GetTotalSeconds", "GetFloatHour", "FloatHourToHMS", "toUint8", "HMS.IsValid", "Date.IsValid"}},
 	{dir: "interval", path: modPath + "/interval", lean: "Interval", pre: "interval",
-		funcs: []string{"Less"}},
+		funcs: []string{"Less", "GetPointList", "GetIntervalList", "Normalize", "Humanize"}},
+	{dir: "utils/stack", path: modPath + "/utils/stack", lean: "Stack", pre: "stack",
+		funcs: []string{"Push", "Pop"}},
 	{dir: "cal_types/julian", path: modPath + "/cal_types/julian", lean: "Julian", pre: "julian",
 		funcs: []string{"IsLeap", "getYearDays", "getMonthDayFromYdays", "ToJd", "JdTo", "GetMonthLen"}},
 	{dir: "cal_types/jalali", path: modPath + "/cal_types/jalali", lean: "Jalali", pre: "jalali",
@@ -295,6 +298,64 @@ type fnTrans struct {
 	tmp     int
 	inRange bool // translating the body of a `for _, v := range` loop: `return e` is `pure (some e)`
 	chk     bool // the overflow-checked copy: every int / int64 addition, subtraction, multiplication, negation is GoSem.chk64
+	inFold  string // translating the body of a range loop with state: the state pattern (`continue` / falling off the end is `pure (Flow.next pat)`, `return e` is `pure (Flow.ret e)`)
+	errRes  bool   // the function returns (T, error): the Lean result is `Option T` inside the panic monad, `none` = an error was returned
+	resType string // Lean type of the function's result
+	// local slices this function made itself (`make`), or got from a call: writing to them in place cannot be seen
+	// through another name — for a call result, provided the slices handed to that call are not used afterwards
+	owned    map[types.Object]bool
+	mayAlias map[types.Object][]types.Object
+}
+
+// usesAny: do the statements mention one of the objects?
+func (t *fnTrans) usesAny(list []ast.Stmt, objs []types.Object) bool {
+	found := false
+	for _, s := range list {
+		ast.Inspect(s, func(n ast.Node) bool {
+			if id, ok := n.(*ast.Ident); ok {
+				for _, o := range objs {
+					if t.sp.info.Uses[id] == o {
+						found = true
+					}
+				}
+			}
+			return true
+		})
+	}
+	return found
+}
+
+// noteOwner records where a freshly bound local slice came from
+func (t *fnTrans) noteOwner(o types.Object, rhs ast.Expr) {
+	if o == nil {
+		return
+	}
+	if _, ok := o.Type().Underlying().(*types.Slice); !ok {
+		return
+	}
+	delete(t.owned, o)
+	delete(t.mayAlias, o)
+	c, ok := rhs.(*ast.CallExpr)
+	if !ok {
+		return
+	}
+	if id, ok := c.Fun.(*ast.Ident); ok && id.Name == "make" {
+		t.owned[o] = true
+		return
+	}
+	var handed []types.Object
+	ast.Inspect(c, func(n ast.Node) bool {
+		if id, ok := n.(*ast.Ident); ok {
+			if u, ok := t.sp.info.Uses[id].(*types.Var); ok {
+				if _, isSl := u.Type().Underlying().(*types.Slice); isSl {
+					handed = append(handed, u)
+				}
+			}
+		}
+		return true
+	})
+	t.owned[o] = true
+	t.mayAlias[o] = handed
 }
 
 // arith: the result of an integer operation of type ty — reduced for uintN, range-checked in the checked copy
@@ -398,7 +459,11 @@ func (t *fnTrans) leanType(ty types.Type) string {
 		}
 	}
 	if sl, ok := ty.Underlying().(*types.Slice); ok {
-		if n, ok := sl.Elem().(*types.Named); ok && n.Obj().Pkg() == t.sp.pkg {
+		el := sl.Elem()
+		if pe, ok := el.(*types.Pointer); ok {
+			el = pe.Elem() // []*T: the structures are values in the translation (bail on nil / aliasing uses elsewhere)
+		}
+		if n, ok := el.(*types.Named); ok && n.Obj().Pkg() == t.sp.pkg {
 			if s, ok := ownStruct(n, t.sp.unit.pre); ok {
 				return "(List " + s + ")"
 			}
@@ -417,6 +482,28 @@ func (t *fnTrans) leanType(ty types.Type) string {
 		return "(List Int)"
 	}
 	bail("type %s is outside the fragment", ty)
+	return ""
+}
+
+// zero value of an element type
+func (t *fnTrans) zero(ty types.Type) string {
+	switch {
+	case isInt(ty):
+		return "0"
+	case isBool(ty):
+		return "false"
+	}
+	if n, ok := ty.(*types.Named); ok {
+		if st, ok := n.Underlying().(*types.Struct); ok {
+			lt := t.leanType(ty)
+			var parts []string
+			for i := 0; i < st.NumFields(); i++ {
+				parts = append(parts, st.Field(i).Name()+" := "+t.zero(st.Field(i).Type()))
+			}
+			return "({ " + strings.Join(parts, ", ") + " } : " + lt + ")"
+		}
+	}
+	bail("zero value of %s", ty)
 	return ""
 }
 
@@ -638,6 +725,19 @@ func (t *fnTrans) expr(e ast.Expr) lexpr {
 			bail("index into %s", xt)
 		}
 		return lexpr{"(GoSem.idx " + t.val(x.X) + " " + t.val(x.Index) + ")", true}
+	case *ast.SliceExpr:
+		if x.Slice3 || (x.Low != nil && x.High != nil) {
+			bail("slice expression with two or three indices")
+		}
+		_ = t.leanType(info.Types[x.X].Type)
+		if x.High != nil {
+			// s[:n]: Go allows n up to cap(s); the translation only up to len(s) (`none` beyond)
+			return lexpr{"(GoSem.takeA " + t.val(x.X) + " " + t.val(x.High) + ")", true}
+		}
+		if x.Low != nil {
+			return lexpr{"(GoSem.dropA " + t.val(x.X) + " " + t.val(x.Low) + ")", true}
+		}
+		return t.expr(x.X)
 	case *ast.CompositeLit:
 		lt := t.leanType(tv.Type)
 		st, ok := tv.Type.Underlying().(*types.Struct)
@@ -670,6 +770,33 @@ func (t *fnTrans) expr(e ast.Expr) lexpr {
 				bail("conversion to %s", ftv.Type)
 			}
 			return lexpr{wrap(ftv.Type, t.val(x.Args[0])), false}
+		}
+		if id, ok := x.Fun.(*ast.Ident); ok {
+			if _, isB := info.Uses[id].(*types.Builtin); isB {
+				switch id.Name {
+				case "append":
+					if len(x.Args) != 2 || x.Ellipsis.IsValid() {
+						bail("append with other than one element")
+					}
+					_ = t.leanType(tv.Type)
+					return lexpr{"(" + t.val(x.Args[0]) + " ++ [" + t.val(x.Args[1]) + "])", false}
+				case "make":
+					lt := t.leanType(tv.Type)
+					sl, ok := tv.Type.Underlying().(*types.Slice)
+					if !ok || len(x.Args) < 2 {
+						bail("make of %s", tv.Type)
+					}
+					lv := info.Types[x.Args[1]]
+					if len(x.Args) == 3 {
+						if lv.Value == nil || lv.Value.ExactString() != "0" {
+							bail("make with a length and a capacity")
+						}
+						// make(T, 0, c): the empty slice; a negative capacity panics
+						return lexpr{"(GoSem.mkCap (α := " + strings.TrimSuffix(strings.TrimPrefix(lt, "(List "), ")") + ") " + t.val(x.Args[2]) + ")", true}
+					}
+					return lexpr{"(GoSem.mkLen " + t.val(x.Args[1]) + " " + t.zero(sl.Elem()) + ")", true}
+				}
+			}
 		}
 		// builtin len of a table
 		if id, ok := x.Fun.(*ast.Ident); ok && id.Name == "len" {
@@ -721,6 +848,8 @@ func (t *fnTrans) expr(e ast.Expr) lexpr {
 				}
 				if n, ok := rt.(*types.Named); ok {
 					if _, ok := srcStructs[n.Obj().Pkg().Path()+"."+n.Obj().Name()]; ok {
+						args = append(args, t.val(se.X))
+					} else if _, isSlice := n.Underlying().(*types.Slice); isSlice {
 						args = append(args, t.val(se.X))
 					}
 				}
@@ -774,6 +903,9 @@ func (t *fnTrans) assigned(stmts []ast.Stmt, declaredInside map[types.Object]boo
 		switch x := s.(type) {
 		case *ast.AssignStmt:
 			for _, l := range x.Lhs {
+				if ix, ok := l.(*ast.IndexExpr); ok {
+					l = ix.X // xs[i] = v rebinds xs in the translation
+				}
 				id, ok := l.(*ast.Ident)
 				if !ok {
 					bail("assignment to %T", l)
@@ -788,6 +920,19 @@ func (t *fnTrans) assigned(stmts []ast.Stmt, declaredInside map[types.Object]boo
 			if id, ok := x.X.(*ast.Ident); ok {
 				if u := info.Uses[id]; u != nil && !declaredInside[u] {
 					out[u] = true
+				}
+			}
+		case *ast.ExprStmt:
+			// an in-place operation (srcMutExternals) rebinds its receiver
+			if c, ok := x.X.(*ast.CallExpr); ok {
+				if se, ok := c.Fun.(*ast.SelectorExpr); ok {
+					if id, ok := se.X.(*ast.Ident); ok {
+						if u, ok := info.Uses[id].(*types.Var); ok && !declaredInside[u] {
+							if _, isSl := u.Type().Underlying().(*types.Slice); isSl {
+								out[u] = true
+							}
+						}
+					}
 				}
 			}
 		case *ast.DeclStmt:
@@ -829,6 +974,17 @@ func (t *fnTrans) assigned(stmts []ast.Stmt, declaredInside map[types.Object]boo
 
 func ind(n int) string { return strings.Repeat("  ", n) }
 
+var bareInt = regexp.MustCompile(`^\(?-?[0-9]+\)?$`)
+
+// typedLit: a bare integer literal bound by `let` would be elaborated as a natural number (truncated subtraction!):
+// give it its type
+func typedLit(v string) string {
+	if bareInt.MatchString(v) {
+		return "(" + v + " : Int)"
+	}
+	return v
+}
+
 // stmts translates a statement list followed by the continuation `k` (Lean text of a do-block tail,
 // "" = falling off the end is an error).
 func (t *fnTrans) stmts(list []ast.Stmt, k string, depth int, nres int) string {
@@ -851,7 +1007,7 @@ func (t *fnTrans) stmts(list []ast.Stmt, k string, depth int, nres int) string {
 		if x.eff {
 			return ind(depth) + "let " + n + " ← " + v + "\n"
 		}
-		return ind(depth) + "let " + n + " := " + v + "\n"
+		return ind(depth) + "let " + n + " := " + typedLit(v) + "\n"
 	}
 	lhsObj := func(e ast.Expr) types.Object {
 		id, ok := e.(*ast.Ident)
@@ -884,8 +1040,39 @@ func (t *fnTrans) stmts(list []ast.Stmt, k string, depth int, nres int) string {
 			}
 			return ind(depth) + "pure (some " + t.val(x.Results[0]) + ")\n"
 		}
+		if t.errRes {
+			// (T, error): `return v, nil` is `some v`, `return _, err` is `none` (the error value itself is not modelled)
+			if len(x.Results) == 1 {
+				// return f(...) of a translated function with the same (T, error) shape
+				if c, ok := x.Results[0].(*ast.CallExpr); ok {
+					if tup, ok := info.Types[c].Type.(*types.Tuple); ok && tup.Len() == 2 {
+						r := t.expr(c)
+						if t.inFold != "" {
+							return ind(depth) + "pure (GoSem.Flow.ret (← " + r.s + "))\n"
+						}
+						return ind(depth) + r.s + "\n"
+					}
+				}
+			}
+			if len(x.Results) != 2 {
+				bail("return shape in a function with an error result")
+			}
+			rv := "none"
+			if id, ok := x.Results[1].(*ast.Ident); ok && id.Name == "nil" {
+				rv = "(some " + t.val(x.Results[0]) + ")"
+			} else if c, ok := x.Results[1].(*ast.CallExpr); !ok || !isErrorCtor(info, c) {
+				bail("error result that is neither nil nor a fresh error")
+			}
+			if t.inFold != "" {
+				return ind(depth) + "pure (GoSem.Flow.ret " + rv + ")\n"
+			}
+			return ind(depth) + "pure " + rv + "\n"
+		}
 		if len(x.Results) == 1 {
 			r := t.expr(x.Results[0])
+			if t.inFold != "" {
+				return ind(depth) + "pure (GoSem.Flow.ret " + t.val(x.Results[0]) + ")\n"
+			}
 			if r.eff {
 				return ind(depth) + r.s + "\n"
 			}
@@ -895,7 +1082,15 @@ func (t *fnTrans) stmts(list []ast.Stmt, k string, depth int, nres int) string {
 		for _, r := range x.Results {
 			parts = append(parts, t.val(r))
 		}
+		if t.inFold != "" {
+			return ind(depth) + "pure (GoSem.Flow.ret (" + strings.Join(parts, ", ") + "))\n"
+		}
 		return ind(depth) + "pure (" + strings.Join(parts, ", ") + ")\n"
+	case *ast.BranchStmt:
+		if x.Tok == token.CONTINUE && x.Label == nil && t.inFold != "" {
+			return ind(depth) + "pure (GoSem.Flow.next " + t.inFold + ")\n"
+		}
+		bail("%s statement", x.Tok)
 	case *ast.AssignStmt:
 		switch x.Tok {
 		case token.DEFINE, token.ASSIGN:
@@ -912,7 +1107,7 @@ func (t *fnTrans) stmts(list []ast.Stmt, k string, depth int, nres int) string {
 						if rx.eff {
 							out += ind(depth) + "let " + tn + " ← " + rx.s + "\n"
 						} else {
-							out += ind(depth) + "let " + tn + " := " + rx.s + "\n"
+							out += ind(depth) + "let " + tn + " := " + typedLit(rx.s) + "\n"
 						}
 					}
 					for i, l := range x.Lhs {
@@ -920,13 +1115,27 @@ func (t *fnTrans) stmts(list []ast.Stmt, k string, depth int, nres int) string {
 					}
 					return out + t.stmts(rest, k, depth, nres)
 				}
+				if ix, ok := x.Lhs[0].(*ast.IndexExpr); ok && x.Tok == token.ASSIGN {
+					// xs[i] = v on a local slice: the slice is a value in the translation (aliasing is outside the fragment:
+					// the function must own the slice - checked by `ownedSlices`)
+					id, ok := ix.X.(*ast.Ident)
+					if !ok || !t.owned[info.Uses[id]] || t.usesAny(rest, t.mayAlias[info.Uses[id]]) {
+						bail("assignment to an element of a slice the function did not make itself")
+					}
+					n := t.nameOf(info.Uses[id])
+					return ind(depth) + "let " + n + " ← GoSem.setA " + n + " " + t.val(ix.Index) + " " + t.val(x.Rhs[0]) + "\n" + t.stmts(rest, k, depth, nres)
+				}
 				// evaluate the right-hand side BEFORE the left name is (re)bound
 				rhs := x.Rhs[0]
 				x0 := t.expr(rhs)
-				n := t.nameOf(lhsObj(x.Lhs[0]))
+				lo := lhsObj(x.Lhs[0])
+				t.noteOwner(lo, rhs)
+				n := t.nameOf(lo)
 				arrow := " := "
 				if x0.eff {
 					arrow = " ← "
+				} else {
+					x0.s = typedLit(x0.s)
 				}
 				return ind(depth) + "let " + n + arrow + x0.s + "\n" + t.stmts(rest, k, depth, nres)
 			}
@@ -987,7 +1196,7 @@ func (t *fnTrans) stmts(list []ast.Stmt, k string, depth int, nres int) string {
 				} else if !isInt(o.Type()) {
 					bail("zero value of %s", o.Type())
 				}
-				out += ind(depth) + "let " + t.nameOf(o) + " := " + zero + "\n"
+				out += ind(depth) + "let " + t.nameOf(o) + " := " + typedLit(zero) + "\n"
 			}
 		}
 		return out + t.stmts(rest, k, depth, nres)
@@ -998,6 +1207,29 @@ func (t *fnTrans) stmts(list []ast.Stmt, k string, depth int, nres int) string {
 				if id, ok := se.X.(*ast.Ident); ok {
 					if pn, ok := info.Uses[id].(*types.PkgName); ok && (pn.Imported().Path() == "log" || pn.Imported().Path() == "fmt") {
 						return t.stmts(rest, k, depth, nres)
+					}
+				}
+			}
+		}
+		if c, ok := x.X.(*ast.CallExpr); ok {
+			if se, ok := c.Fun.(*ast.SelectorExpr); ok {
+				if sel, ok := info.Selections[se]; ok {
+					if fn, ok := sel.Obj().(*types.Func); ok && fn.Pkg() != nil {
+						rt := fn.Type().(*types.Signature).Recv().Type()
+						if n, ok := rt.(*types.Named); ok {
+							q := fn.Pkg().Path() + "." + n.Obj().Name() + "." + fn.Name()
+							if m, ok := srcMutExternals[q]; ok && len(c.Args) == 0 {
+								id, ok := se.X.(*ast.Ident)
+								if !ok || !t.owned[info.Uses[id]] || t.usesAny(rest, t.mayAlias[info.Uses[id]]) {
+									bail("in-place %s of a slice the function did not make itself", fn.Name())
+								}
+								for _, dep := range m.deps {
+									t.calls[dep] = true
+								}
+								nm := t.nameOf(info.Uses[id])
+								return ind(depth) + "let " + nm + " ← " + m.lean + " " + nm + "\n" + t.stmts(rest, k, depth, nres)
+							}
+						}
 					}
 				}
 			}
@@ -1031,7 +1263,8 @@ func (t *fnTrans) stmts(list []ast.Stmt, k string, depth int, nres int) string {
 		// neither arm returns: the `if` only updates variables; bind them once and continue (no duplication)
 		hasReturn := false
 		ast.Inspect(x, func(n ast.Node) bool {
-			if _, ok := n.(*ast.ReturnStmt); ok {
+			switch n.(type) {
+			case *ast.ReturnStmt, *ast.BranchStmt:
 				hasReturn = true
 			}
 			return true
@@ -1065,8 +1298,11 @@ func (t *fnTrans) stmts(list []ast.Stmt, k string, depth int, nres int) string {
 	case *ast.RangeStmt:
 		// `for _, v := range xs { … return e … }` over a slice of integers, the body assigning nothing outside itself:
 		// the first iteration that returns decides; otherwise the statements after the loop run
-		if t.inRange {
+		if t.inRange || t.inFold != "" {
 			bail("nested range loop")
+		}
+		if out, ok := t.foldLoop(x, rest, k, depth, nres); ok {
+			return out
 		}
 		if x.Key != nil {
 			if id, ok := x.Key.(*ast.Ident); !ok || id.Name != "_" {
@@ -1150,6 +1386,125 @@ func (t *fnTrans) stmts(list []ast.Stmt, k string, depth int, nres int) string {
 	return ""
 }
 
+// foldLoop: `for i, v := range xs { … }` whose body updates variables declared before it, uses the index, or
+// `continue`s — GoSem.forFold over the state tuple. Not used (ok = false) for the plain searching loops that
+// GoSem.forRange already covers, so that their translation stays as it was.
+func (t *fnTrans) foldLoop(x *ast.RangeStmt, rest []ast.Stmt, k string, depth int, nres int) (string, bool) {
+	info := t.sp.info
+	set := map[types.Object]bool{}
+	t.assigned(x.Body.List, map[types.Object]bool{}, set)
+	usesKey := false
+	if id, ok := x.Key.(*ast.Ident); ok && id.Name != "_" {
+		usesKey = true
+	}
+	hasContinue, hasReturn := false, false
+	ast.Inspect(x.Body, func(n ast.Node) bool {
+		switch b := n.(type) {
+		case *ast.BranchStmt:
+			if b.Tok != token.CONTINUE || b.Label != nil {
+				bail("%s inside a range loop", b.Tok)
+			}
+			hasContinue = true
+		case *ast.ReturnStmt:
+			hasReturn = true
+		case *ast.ForStmt, *ast.RangeStmt:
+			bail("nested loop inside a range loop")
+		}
+		return true
+	})
+	xt := info.Types[x.X].Type
+	sl, isSl := xt.Underlying().(*types.Slice)
+	if !isSl {
+		bail("range over %s", xt)
+	}
+	if len(set) == 0 && !usesKey && !hasContinue && isInt(sl.Elem()) {
+		return "", false
+	}
+	if x.Tok != token.DEFINE {
+		bail("range loop without fresh variables")
+	}
+	_ = t.leanType(xt)
+	// the ranged slice is evaluated once; the body must not write to it
+	if id, ok := x.X.(*ast.Ident); ok {
+		if set[info.Uses[id]] {
+			bail("range loop that assigns the slice it ranges over")
+		}
+	}
+	var objs []types.Object
+	for o := range set {
+		objs = append(objs, o)
+	}
+	sort.Slice(objs, func(i, j int) bool { return objs[i].Pos() < objs[j].Pos() })
+	var ns []string
+	for _, o := range objs {
+		ns = append(ns, t.nameOf(o))
+	}
+	pat := "()"
+	if len(ns) == 1 {
+		pat = ns[0]
+	} else if len(ns) > 1 {
+		pat = "(" + strings.Join(ns, ", ") + ")"
+	}
+	kn, vn := "_i", "_v"
+	if usesKey {
+		kn = t.nameOf(info.Defs[x.Key.(*ast.Ident)])
+	}
+	if x.Value != nil {
+		if id, ok := x.Value.(*ast.Ident); ok && id.Name != "_" {
+			vn = t.nameOf(info.Defs[id])
+		} else if !ok {
+			bail("range value that is not a variable")
+		}
+	}
+	rho := "Empty"
+	if hasReturn {
+		rho = t.resType
+	}
+	t.inFold = pat
+	body := t.stmts(x.Body.List, "pure (GoSem.Flow.next "+pat+")", depth+2, nres)
+	t.inFold = ""
+	t.tmp++
+	rn := fmt.Sprintf("_r%d", t.tmp)
+	out := ind(depth) + "let " + rn + " ← GoSem.forFold (ρ := " + rho + ") (fun " + pat + " " + kn + " " + vn + " => do\n" + body + ind(depth+1) + ") " + t.val(x.X) + " 0 " + pat + "\n"
+	out += ind(depth) + "match " + rn + " with\n"
+	if hasReturn {
+		out += ind(depth) + "| GoSem.Flow.ret _v => pure _v\n"
+	} else {
+		out += ind(depth) + "| GoSem.Flow.ret _v => nomatch _v\n"
+	}
+	out += ind(depth) + "| GoSem.Flow.next " + pat + " =>\n"
+	return out + t.stmts(rest, k, depth+1, nres), true
+}
+
+func isErrorCtor(info *types.Info, c *ast.CallExpr) bool {
+	se, ok := c.Fun.(*ast.SelectorExpr)
+	if !ok {
+		return false
+	}
+	id, ok := se.X.(*ast.Ident)
+	if !ok {
+		return false
+	}
+	pn, ok := info.Uses[id].(*types.PkgName)
+	if !ok {
+		return false
+	}
+	q := pn.Imported().Path() + "." + se.Sel.Name
+	return q == "fmt.Errorf" || q == "errors.New"
+}
+
+// in-place operations on a slice the function owns, mapped to a hand-written model (SrcExt.lean)
+type mutExternal struct {
+	lean string
+	deps []string
+}
+
+var srcMutExternals = map[string]mutExternal{
+	// sort.Sort by the package's own Less (translated): SrcExt.sortWith is insertion sort by that comparison —
+	// for a total order with no ties (which Less is: SrcTie/Interval.lean) every correct sort returns the same list
+	modPath + "/interval.IntervalPointList.Sort": {"SrcExt.sortWith interval_Less", []string{"interval_Less"}},
+}
+
 type srcDef struct {
 	lean    string // Lean name
 	text    string // definition text with @GLOBALS@ placeholders
@@ -1186,7 +1541,8 @@ func translateFunc(sp *srcPkg, all map[string]*srcPkg, name string, chk bool) (d
 			panic(r)
 		}
 	}()
-	t := &fnTrans{sp: sp, all: all, names: map[types.Object]string{}, used: map[string]int{}, globals: map[types.Object]bool{}, calls: map[string]bool{}, chk: chk}
+	t := &fnTrans{sp: sp, all: all, names: map[types.Object]string{}, used: map[string]int{}, globals: map[types.Object]bool{}, calls: map[string]bool{}, chk: chk,
+		owned: map[types.Object]bool{}, mayAlias: map[types.Object][]types.Object{}}
 	var params []string
 	if fd.Recv != nil && len(fd.Recv.List) == 1 {
 		r := fd.Recv.List[0]
@@ -1217,13 +1573,25 @@ func translateFunc(sp *srcPkg, all map[string]*srcPkg, name string, chk bool) (d
 		if len(f.Names) > 0 {
 			bail("named results")
 		}
-		rts = append(rts, t.leanType(sp.info.Types[f.Type].Type))
+		rty := sp.info.Types[f.Type].Type
+		if types.Identical(rty, types.Universe.Lookup("error").Type()) {
+			if len(fd.Type.Results.List) != 2 || len(rts) != 1 {
+				bail("error result in an unsupported position")
+			}
+			t.errRes = true
+			continue
+		}
+		rts = append(rts, t.leanType(rty))
 	}
-	body := t.stmts(fd.Body.List, "", 1, len(rts))
 	rt := strings.Join(rts, " × ")
 	if len(rts) > 1 {
 		rt = "(" + rt + ")"
 	}
+	if t.errRes {
+		rt = "(Option " + rt + ")"
+	}
+	t.resType = rt
+	body := t.stmts(fd.Body.List, "", 1, len(rts))
 	var gs []types.Object
 	for o := range t.globals {
 		gs = append(gs, o)
